@@ -132,6 +132,7 @@ pub enum FrameKind {
     Trace(ObjId),
     Finalize(ObjId),
     Destroy(ObjId),
+    DestroyValue(ObjId), // destructor of a value that is not (or no longer) owned by a Cc: ordinary program code
     LeafFinalize(ObjId),
     LeafDrop(ObjId),
     Action(u32),
@@ -465,11 +466,12 @@ impl World {
 
     /// Objects reachable from program-held strong pointers through all edges of undropped values.
     pub fn reach(m: &Model) -> Vec<bool> {
-        World::reach_at(m, m.op_index)
+        World::reach_ext(m, false)
     }
 
-    /// `now`: leaks that happened in operations before `now` act as roots.
-    pub fn reach_at(m: &Model, now: u32) -> Vec<bool> {
+    /// `with_leaks`: pointers that were leaked (ManuallyDrop positions of destroyed owners) are not held by the
+    /// program, but they legitimately keep their targets from ever being reclaimed: completeness oracles count them.
+    pub fn reach_ext(m: &Model, with_leaks: bool) -> Vec<bool> {
         let n = m.objs.len();
         let mut r = vec![false; n];
         let mut stack: Vec<ObjId> = Vec::new();
@@ -489,8 +491,7 @@ impl World {
             if ob.bulk_strong > 0 || ob.status == Status::UnderConstruction {
                 push(i as ObjId, &mut r, &mut stack);
             }
-            if ob.leaked_edges && ob.leaked_at_op < now {
-                // (within the operation that destroyed the owner, the targets may be members of the same garbage set)
+            if with_leaks && ob.leaked_edges {
                 // Ccs inside a ManuallyDrop position of a dropped owner exist forever: they keep alive what is
                 // still alive (a leaked pointer to an already reclaimed object is merely dangling, never used)
                 for t in ob.edges.values() {
@@ -544,7 +545,11 @@ impl World {
                 n += p.stored_weaks.iter().filter(|t| **t == Some(o)).count() as u32;
             }
         }
-        // self_weak is recorded in stored_weaks too (by the harness), so nothing more to add
+        // the Weak a node created by new_cyclic keeps to itself lives as long as the node's value
+        let me = &m.objs[o as usize];
+        if me.self_weak && matches!(me.status, Status::Live | Status::Unwrapped | Status::Destroying) {
+            n += 1;
+        }
         n
     }
 
